@@ -13,6 +13,8 @@ def replay(ob):
     n = ob["name"]
     if "C06.matcher.match_constant" in n:
         return HEAD + "main(['literal_rank', 'add_eps'])\n"
+    if "ScatterAllStatic.fires_only_for_indices" in n or "ScatterAllStatic.check_decides" in n:
+        return HEAD + "main(['scatter_permuted'])\n"
     if "rules.CastCast" in n:
         return HEAD + "main(['cast_cast'])\n"
     if "UnsqueezeUnsqueeze.does_not_fire" in n:
